@@ -32,6 +32,12 @@ func PureLibrary(name string) bool {
 	return false
 }
 
+// RetInfo is one return of the entry function.
+type RetInfo struct {
+	Pred bdd.Node
+	Val  Value
+}
+
 // SiteLog records the value-based verdicts on one potentially panicking instruction.
 type SiteLog struct {
 	OK      int    // executions under which the failing condition is unsatisfiable
@@ -102,8 +108,20 @@ type LoopSummary struct {
 	Init         []LoopFlow // values entering the loop
 	Back         []LoopFlow // values flowing along back edges (functions of the loop atoms)
 	StoreChanged []string   // store locations the body changes (other than through events)
+	BackState    *State     // the state flowing along the (last) back edge
 	headState    *State
 }
+
+// EntryStateOf is the value of a location when the loop is entered.
+func (in *Interp) EntryStateOf(ls *LoopSummary, root, path string) Value {
+	if v, ok := ls.headState.Get(root, path); ok {
+		return v
+	}
+	return nil
+}
+
+// EntryKeysOf lists the locations written before the loop is entered.
+func (in *Interp) EntryKeysOf(ls *LoopSummary) []string { return ls.headState.Keys() }
 
 // PtrChoice is a pointer selected by a data-dependent index.
 type PtrChoice struct {
@@ -130,6 +148,14 @@ type Interp struct {
 	// callback may legitimately change).
 	AfterEvent func(in *Interp, st *State, guard bdd.Node)
 
+	// SharedRoots are local cells shared with another goroutine: every load
+	// yields a fresh unknown value produced by SharedLoad (width 0 = interface).
+	SharedRoots map[string]bool
+	SharedLoad  func(root, path string, width int) Value
+	// TopReturns lists the returns of the entry function with their path predicates.
+	TopReturns []RetInfo
+	// OnGo is called for a go statement (the started function value and its arguments).
+	OnGo func(in *Interp, fv *FuncV, args []Value, guard bdd.Node, st *State, pos string)
 	// Sites logs, per instruction that can panic, whether the failing
 	// condition was ever satisfiable under the path predicate (C12).
 	Sites    map[ssa.Instruction]*SiteLog
@@ -402,6 +428,10 @@ func (in *Interp) loadAt(st *State, root string, ri *rootInfo, path string, t ty
 			}
 			return s
 		}
+	}
+	if in.SharedRoots[root] && in.SharedLoad != nil {
+		w, _, _ := in.width(t)
+		return in.SharedLoad(root, path, w)
 	}
 	if v, ok := st.Get(root, path); ok {
 		return v
@@ -728,6 +758,7 @@ func (in *Interp) callBound(fn *ssa.Function, args []Value, bindings []Value, gu
 						}
 					}
 					ls.BackPred = in.C.M.Or(ls.BackPred, p)
+					ls.BackState = s
 					for _, k := range s.Keys() {
 						v, _ := s.m[k]
 						if hv, ok := ls.headState.m[k]; !ok || !SameValue(hv, v) {
@@ -820,6 +851,9 @@ func (in *Interp) callBound(fn *ssa.Function, args []Value, bindings []Value, gu
 					rv = t
 				}
 				rets = append(rets, retRec{pred, rv, cur})
+				if top {
+					in.TopReturns = append(in.TopReturns, RetInfo{Pred: pred, Val: rv})
+				}
 			case *ssa.Panic:
 				in.site("explicit panic", bdd.True)
 				in.T.Emit(pred, "Panic", "", nil, 0, in.P.Pos(x.Pos()))
@@ -1020,6 +1054,26 @@ func (in *Interp) exec(fr *frame, instr ssa.Instruction, pred bdd.Node, st *Stat
 			fv.Bindings = append(fv.Bindings, in.operand(fr, b))
 		}
 		fr.vals[x] = fv
+	case *ssa.Go:
+		if in.OnGo == nil {
+			in.undecided(x.Pos(), "go statement")
+		}
+		var fv *FuncV
+		if f := x.Call.StaticCallee(); f != nil {
+			fv = &FuncV{Fn: f}
+			if mc, ok := x.Call.Value.(*ssa.MakeClosure); ok {
+				if v, ok := in.operand(fr, mc).(*FuncV); ok {
+					fv = v
+				}
+			}
+		} else if v, ok := in.operand(fr, x.Call.Value).(*FuncV); ok {
+			fv = v
+		}
+		var args []Value
+		for _, a := range x.Call.Args {
+			args = append(args, in.operand(fr, a))
+		}
+		in.OnGo(in, fv, args, pred, st, in.P.Pos(x.Pos()))
 	case *ssa.Defer:
 		name := "func value"
 		if f := x.Call.StaticCallee(); f != nil {
@@ -1696,7 +1750,7 @@ func (in *Interp) lookup(fr *frame, x *ssa.Lookup, pred bdd.Node) Value {
 		}
 	}
 	res := in.T.Emit(pred, "map.get", m.Sym, []dom.BV{k}, vw+1, in.P.Pos(x.Pos()))
-	present := dom.BV{res[vw]}
+	present := dom.BV{in.C.M.And(in.C.M.Not(m.Nil), res[vw])} // a nil map has no members
 	var val Value
 	if vw > 0 {
 		val = res.Slice(0, vw)
